@@ -36,7 +36,10 @@ TRUSTED_BASE = [
     'Rocq/Coq 8.16.1 kernel and its VM (vm_compute); no native_compute',
     'no axioms: every property theorem prints "Closed under the global context" (re-read on every run)',
     'tools/gen_facts.py: Python-ast translator of constants and loop skeleton (fail-closed)',
-    'tools/gen_sched.py: Python-ast translator of the scheduler core into Gallina (fail-closed; rules in DESIGN.md 11.6)',
+    'tools/gen_sched.py, gen_jobs.py, gen_builder.py, gen_taskmgr.py, gen_prod.py, gen_sun.py, gen_trig.py, gen_parse.py, '
+    'gen_dst.py, gen_instant.py: Python-ast translators of the source into Gallina, statement by statement (fail-closed; the '
+    'translation rules they trust are listed in their docstrings and in DESIGN.md 11.6); the generated files are proved '
+    'equal to the hand-written models on every run (Gen*Eq.v)',
     'correspondence harness: virtual clock/loop, observation and canonicalisation of the implementation',
     'modelled, not verified: CPython, asyncio, whenever, astral, bisect/deque; float arithmetic on the 2^-9 s grid',
 ]
